@@ -185,7 +185,7 @@ def job_rel(tid, src, cfg_a, cfg_b, evm="cancun", scale=1, havoc=True):
     terms = T.cd_eval_terms(env, 8)
     regions = slack_regions(T.compile_full(src, cfg_a, evm)["layout"])
     for name, outs in ((cfg_a, A), (cfg_b, B)):
-        discharge(obs, f"paths-exhaustive[{name}]", z3.Or(*[o.pc for o in outs]), timeout_ms=timeout, replay=replay)
+        discharge(obs, f"paths-exhaustive[{name}]", z3.Or(*[o.pc for o in outs]), hyps=list(env.assumptions), timeout_ms=timeout, replay=replay)
     for a in A:
         for b in B:
             both = z3.And(a.pc, b.pc)
